@@ -32,17 +32,19 @@ pub enum Mut {
     AlterAuxDataKeepHash,
     WrongAuxHash,
     DropAuxDataKeepHash,
+    AuxDataWithoutHash,
+    HashWithoutAuxData,
     WrongScriptDataHash,
     AlterCostModel,
     DropCostModel,
 }
 
-pub const ALL: [Mut; 26] = [
+pub const ALL: [Mut; 28] = [
     Mut::EmptyInputs, Mut::RemoveInputUtxo, Mut::RemoveCollateralUtxo, Mut::SlotPastTtl, Mut::SlotBeforeValidityStart,
     Mut::RaiseMinAdaPerOutput, Mut::LowerMaxValueSize, Mut::EnvNetworkFlip, Mut::BodyNetworkIdWrong, Mut::OutputNetworkWrong,
     Mut::NoCollateralAllowed, Mut::CollateralToScriptAddress, Mut::CollateralWithAssets, Mut::CollateralTooSmall,
     Mut::RaiseCollateralPercentage, Mut::WrongTotalCollateral, Mut::DropNativeScriptOfMint, Mut::DropPlutusScript, Mut::DropDatum,
-    Mut::DropRedeemer, Mut::AlterAuxDataKeepHash, Mut::WrongAuxHash, Mut::DropAuxDataKeepHash, Mut::WrongScriptDataHash,
+    Mut::DropRedeemer, Mut::AlterAuxDataKeepHash, Mut::WrongAuxHash, Mut::DropAuxDataKeepHash, Mut::AuxDataWithoutHash, Mut::HashWithoutAuxData, Mut::WrongScriptDataHash,
     Mut::AlterCostModel, Mut::DropCostModel,
 ];
 
@@ -234,6 +236,13 @@ fn apply(m: Mut, spec: &Spec, w: &mut World) -> bool {
             w.tw.wrong_aux_hash = true;
             true
         }
+        Mut::AuxDataWithoutHash | Mut::HashWithoutAuxData => {
+            if spec.metadata.is_none() {
+                return false;
+            }
+            if m == Mut::AuxDataWithoutHash { w.tw.aux_hash_omitted = true } else { w.tw.aux_data_omitted = true }
+            true
+        }
         Mut::WrongScriptDataHash => {
             if !plutus {
                 return false;
@@ -254,7 +263,7 @@ fn apply(m: Mut, spec: &Spec, w: &mut World) -> bool {
 }
 
 fn needs_reforge(m: Mut) -> bool {
-    matches!(m, Mut::BodyNetworkIdWrong | Mut::OutputNetworkWrong | Mut::WrongTotalCollateral | Mut::WrongAuxHash | Mut::WrongScriptDataHash)
+    matches!(m, Mut::BodyNetworkIdWrong | Mut::OutputNetworkWrong | Mut::WrongTotalCollateral | Mut::WrongAuxHash | Mut::AuxDataWithoutHash | Mut::HashWithoutAuxData | Mut::WrongScriptDataHash)
 }
 
 fn check(c: &Case, obs: &mut Obs) -> Result<(), Fail> {
@@ -280,7 +289,9 @@ fn check(c: &Case, obs: &mut Obs) -> Result<(), Fail> {
             muts.push(*m);
         }
     }
-    if muts.contains(&Mut::EnvNetworkFlip) && (muts.contains(&Mut::OutputNetworkWrong) || muts.contains(&Mut::BodyNetworkIdWrong)) {
+    // ... and so is a transaction with neither the auxiliary data nor its hash
+    let aux_cancel = muts.contains(&Mut::AuxDataWithoutHash) && (muts.contains(&Mut::HashWithoutAuxData) || muts.contains(&Mut::DropAuxDataKeepHash));
+    if aux_cancel || muts.contains(&Mut::EnvNetworkFlip) && (muts.contains(&Mut::OutputNetworkWrong) || muts.contains(&Mut::BodyNetworkIdWrong)) {
         obs.class("self-cancelling-pair");
         obs.discard();
         return Ok(());
